@@ -114,7 +114,7 @@ The file is `known_findings.json`; nothing is added to it at run time.
 
 SEEDS_INTRO = """Each change was written by a fresh sub-agent that saw only the property text and its own scratch worktree, confirmed by
 `tools/confirm_seed.sh` (demonstration passes on the pristine tree, fails with the patch, no new failure in the pinned suite) and stored under
-`seeded/<id>/`. Eight rounds, 313 stored changes. `tools/psweep.sh` applies every stored change to a scratch copy of /repo (several in parallel; `tools/seedsweep.sh`
+`seeded/<id>/`. Nine rounds, 353 stored changes. `tools/psweep.sh` applies every stored change to a scratch copy of /repo (several in parallel; `tools/seedsweep.sh`
 does the same on /repo's working tree, one at a time), runs the owning check and removes the copy; at the time of writing every stored change is
 reported as VIOLATION by the quick tier of its check, with a failing input replayed on the real code. Where a check first missed a change it was
 strengthened - the generator was the gap nearly every time, an oracle clause a few times; no oracle was loosened:
@@ -170,6 +170,16 @@ strengthened - the generator was the gap nearly every time, an oracle clause a f
   C16 quotes and backslashes in credentials set through the properties; C18 several requests on one connection, `CONNECT` in mixed case with an ordinary
   target; C19 the elements sent as several field lines with the name spelled differently, `get_element(name, which)` with a malformed weight elsewhere;
   C20 a Response object that served another range request before, a stale Content-Length on it.
+
+* round 9 (ids -16 .. -18; several generators were widened while the agents worked, from reading their summaries: IPvFuture letter case, > 32 slash runs,
+  URI objects that held another URI, IP-literal authorities in join(), named-file range bodies, zero-padded range positions, JSON under UTF-7 / EBCDIC, media types
+  in capital letters, empty and blank-run reason phrases, asterisk- and authority-form targets): the remaining misses were C05 file-like bodies positioned at their
+  end; C06 `*` as a path token; C07 a continuation line at the end of a trailer block; C08 `update()` from a dict / plain CaseInsensitiveDict / Headers (new
+  operation); C09 elements built without parameters (a shared default); C12 the written form of the result against the RFC text itself (a quoting set changed in
+  place by an earlier compose); C13 assigning a query to a URI that already has one; C15 one date compared again and again with operands that are dropped at once
+  (a memo keyed by object identity); C16 the same field value parsed twice with the first result edited in between, the scheme name in any letter case; C18 a
+  version above the server's without Host / with only the request line there, request lines of different length arriving in pieces on one connection; C19 the
+  weight of an element changed after parsing.
 
 Stored patches are rebased when a `fix:` commit touches the same lines (noted in their notes.txt). Six changes are kept under `seeded/rejected/` and are not
 counted: C04-2, C12-1-superseded and C11-11 became harmless through the repairs F50 / F60 / F64 (their demonstrations pass with the patch applied); C06-9 and C07-10
